@@ -34,7 +34,10 @@ def check(rep, tier, seed):
     for _ in range(nspec):
         d = rng.randrange(1, 5)
         sh = [rng.randrange(2, 6) for _ in range(d)]
-        data = [str(rng.randrange(1, 300)) for _ in range(elements(sh))]
+        pz = rng.choice([0.0, 0.0, 0.4])
+        data = ["0" if rng.random() < pz else str(rng.randrange(1, 300)) for _ in range(elements(sh))]
+        if all(x == "0" for x in data):
+            data[0] = "5"
         for subset in itertools.product([0, 1], repeat=4):
             um, up, uk, un = subset
             cur = list(sh)
